@@ -122,12 +122,14 @@ class _ColorSequences:
         param_name = "bg_color" if is_bg else "color"
 
         # case 1: 'color' is a name of color
-        if color in _ColorSequences._COLORS:
+        if isinstance(color, str) and color in _ColorSequences._COLORS:
             return fg_bg_id + _ColorSequences._COLORS[color]
 
         # case 2: 'color' is an (r, g, b) tuple, each compnent in range(5)
         if isinstance(color, (list, tuple)):
-            if len(color) != 3 or any(c < 0 or c > 5 for c in color):
+            if len(color) != 3 or any(
+                not isinstance(c, int) or c < 0 or c > 5 for c in color
+            ):
                 raise ValueError(
                     f"Invalid {param_name} description tuple {color}. "
                     f"Valid color description tuple should have 3 elements "
